@@ -31,6 +31,9 @@ func (self ValueList) Display() (string, *VmInterrupt) {
 }
 
 func (self ValueList) IsEqual(other Value) (bool, *VmInterrupt) {
+	if other.Kind() != self.Kind() {
+		return false, nil // values of different kinds (elements of an `[any]`, content of a `{ ? }`) are not equal
+	}
 	otherList := other.(ValueList)
 	// check length
 	if len(*otherList.Values) != len(*self.Values) {
